@@ -72,24 +72,32 @@ type CharIndices<'a> =
     core::iter::Chain<bstr::CharIndices<'a>, core::iter::Once<(usize, usize, char)>>;
 
 /// Mapping between byte and character indices.
-pub struct ByteChar<'a>(core::iter::Peekable<core::iter::Enumerate<CharIndices<'a>>>);
+pub struct ByteChar<'a>(
+    &'a [u8],
+    core::iter::Peekable<core::iter::Enumerate<CharIndices<'a>>>,
+);
 
 impl<'a> ByteChar<'a> {
     pub fn new(s: &'a [u8]) -> Self {
         let last = core::iter::once((s.len(), 0, '\0'));
-        Self(s.char_indices().chain(last).enumerate().peekable())
+        Self(s, s.char_indices().chain(last).enumerate().peekable())
     }
 
     /// Convert byte offset to UTF-8 character offset.
     ///
-    /// This needs to be called with monotonically increasing values of `byte_offset`.
+    /// This is fastest when called with monotonically increasing values of `byte_offset`.
     fn char_of_byte(&mut self, byte_offset: usize) -> Option<usize> {
+        // capture groups may start before previous ones, e.g. for `(?:(x)|(y))+` and "yx";
+        // in that case, start over
+        if !matches!(self.1.peek(), Some((_, (byte_i, ..))) if *byte_i <= byte_offset) {
+            *self = Self::new(self.0);
+        }
         loop {
-            let (char_i, (byte_i, _, _char)) = self.0.peek()?;
+            let (char_i, (byte_i, _, _char)) = self.1.peek()?;
             if byte_offset == *byte_i {
                 return Some(*char_i);
             } else {
-                self.0.next();
+                self.1.next();
             }
         }
     }
